@@ -73,6 +73,11 @@ def norm(fn):
 
 
 def site(fns):
+    """the code site of a stack: its innermost function that belongs to the repository under test ("@" mark);
+    stacks without one (driver / library only) fall back to the innermost non-runtime function"""
+    for f in fns:
+        if f.startswith("@"):
+            return norm(f[1:])
     for f in fns:
         if f.startswith(SKIP):
             continue
@@ -106,6 +111,9 @@ def run(ctx):
         "one treasure, one index beacon and the key map stand for all instances (worst case: both processes work on the same record and index)",
     ]
     open_devs = sorted(d for d, fid in DEVS.items() if ctx.is_known(fid))
+    if os.environ.get("VERIF_C10_OPEN_DEVS") is not None:
+        # development aid (verification of proposed fixes in a private tree): judge as if only these were open
+        open_devs = sorted(d for d in os.environ["VERIF_C10_OPEN_DEVS"].split(",") if d in DEVS)
     ctx.extra["open_deviations"] = open_devs
     listed = {}
     for fid, f in ctx.open_findings().items():
